@@ -14,20 +14,20 @@ import (
 type SV struct {
 	t    string
 	sort string
-	gt   types.Type  // Go type when known
-	st   *StoreDecl  // typed store reference
+	gt   types.Type // Go type when known
+	st   *StoreDecl // typed store reference
 }
 
 type SpecEnv struct {
-	e      *Enc
-	vars   map[string]SV
-	cur    map[string]string // current state (nil: use e.st)
-	old    map[string]string // old state (nil: function entry)
-	oldVars map[string]SV    // variable bindings inside old() (e.g. pointer params are the same)
-	inOld  bool
-	errCtx string
-	at     *ssa.BasicBlock // for resolving local variable names (loop invariants)
-	entry  map[string]string // state at loop entry (loop clauses)
+	e        *Enc
+	vars     map[string]SV
+	cur      map[string]string // current state (nil: use e.st)
+	old      map[string]string // old state (nil: function entry)
+	oldVars  map[string]SV     // variable bindings inside old() (e.g. pointer params are the same)
+	inOld    bool
+	errCtx   string
+	at       *ssa.BasicBlock   // for resolving local variable names (loop invariants)
+	entry    map[string]string // state at loop entry (loop clauses)
 	noLocals bool
 }
 
